@@ -35,6 +35,14 @@ func (g *G) service(scope map[string]bool) {
 		s.ErrorResp = append(s.ErrorResp, &m.ErrorResponse{Name: e.Name, Status: rapid.SampledFrom([]int{409, 429, 502}).Draw(t, "svcerrstatus"), Level: "service"})
 		g.feat("service-level-error")
 	}
+	apiErrInService := false
+	if len(g.d.API.Errors) > 0 && rapid.Bool().Draw(t, "reuseapierr") {
+		// refer to the error defined at the API level: the HTTP mapping is inherited
+		s.Errors = append(s.Errors, &m.ErrorDef{Name: g.d.API.Errors[0].Name})
+		apiErrInService = true
+		g.feat("api-error-reused-by-service")
+	}
+	g.apiErrInService = apiErrInService
 	nm := rapid.IntRange(1, g.p.MaxMethods).Draw(t, "nmethods")
 	mscope := map[string]bool{}
 	for i := 0; i < nm; i++ {
@@ -624,14 +632,38 @@ func (g *G) methodErrors(s *m.Service, meth *m.Method) {
 	n := rapid.IntRange(0, 3).Draw(t, "nerrors")
 	scope := map[string]bool{}
 	statuses := []int{400, 404, 409, 422, 500, 503}
+	var customType string // custom error type shared by this method's custom errors
 	for i := 0; i < n; i++ {
 		e := &m.ErrorDef{Name: g.pickName(errorNames, scope, "errname")}
-		e.Temporary = rapid.IntRange(0, 3).Draw(t, "etemp") == 0
-		e.Timeout = rapid.IntRange(0, 3).Draw(t, "etimeout") == 0
-		e.Fault = rapid.IntRange(0, 3).Draw(t, "efault") == 0
+		if g.p.CustomErrors && rapid.IntRange(0, 2).Draw(t, "customerr") == 0 {
+			switch rapid.IntRange(0, 3).Draw(t, "customkind") {
+			case 0:
+				e.Type = m.Prim(m.String)
+				g.feat("primitive-error-type")
+			default:
+				if customType == "" {
+					customType = g.customErrorType()
+				}
+				e.Type = m.UserRef(customType)
+				g.feat("custom-error-type")
+			}
+		} else {
+			e.Temporary = rapid.IntRange(0, 3).Draw(t, "etemp") == 0
+			e.Timeout = rapid.IntRange(0, 3).Draw(t, "etimeout") == 0
+			e.Fault = rapid.IntRange(0, 3).Draw(t, "efault") == 0
+		}
 		meth.Errors = append(meth.Errors, e)
-		meth.HTTP.ErrorResp = append(meth.HTTP.ErrorResp, &m.ErrorResponse{Name: e.Name, Status: rapid.SampledFrom(statuses).Draw(t, "estatus"), Level: "method"})
+		er := &m.ErrorResponse{Name: e.Name, Status: rapid.SampledFrom(statuses).Draw(t, "estatus"), Level: "method"}
+		if e.Type != nil && e.Type.Type.Kind == m.User && rapid.Bool().Draw(t, "errheader") {
+			er.Headers = []m.Mapping{{Attr: "code", Wire: "X-Err-Code"}}
+			g.feat("error-response-header")
+		}
+		meth.HTTP.ErrorResp = append(meth.HTTP.ErrorResp, er)
 		g.feat("method-error")
+	}
+	if len(g.d.API.Errors) > 0 && !g.apiErrInService && rapid.IntRange(0, 2).Draw(t, "methapierr") == 0 {
+		meth.Errors = append(meth.Errors, &m.ErrorDef{Name: g.d.API.Errors[0].Name})
+		g.feat("api-error-reused-by-method")
 	}
 	seen := map[int]int{}
 	for _, er := range meth.HTTP.ErrorResp {
@@ -640,6 +672,24 @@ func (g *G) methodErrors(s *m.Service, meth *m.Method) {
 			g.feat("errors-share-status")
 		}
 	}
+}
+
+// customErrorType adds an object user type usable for several errors: it
+// carries the error name in an ErrorName attribute.
+func (g *G) customErrorType() string {
+	t := g.t
+	name := "Err" + g.newTypeName()
+	ut := &m.UserType{Name: name, Var: g.newVar()}
+	obj := &m.Type{Kind: m.Object}
+	obj.Fields = append(obj.Fields, &m.Field{Name: "name", Attr: m.Prim(m.String), Required: true, ErrName: true})
+	obj.Fields = append(obj.Fields, &m.Field{Name: "detail", Attr: m.Prim(m.String), Required: rapid.Bool().Draw(t, "detailreq")})
+	obj.Fields = append(obj.Fields, &m.Field{Name: "code", Attr: m.Prim(m.Int)})
+	if rapid.Bool().Draw(t, "errextra") {
+		obj.Fields = append(obj.Fields, &m.Field{Name: "items", Attr: &m.Attr{Type: &m.Type{Kind: m.Array, Elem: m.Prim(m.String)}}})
+	}
+	ut.Attr = &m.Attr{Type: obj}
+	g.d.Types = append(g.d.Types, ut)
+	return name
 }
 
 var reParam = regexp.MustCompile(`\{[^}]*\}`)
